@@ -1354,6 +1354,46 @@ class swapped_params:
         return False
 
 
+class written_params:
+    """context manager modelling an UPDATE of parameters that already have a history: each parameter is first replaced by a
+    concrete-valued SymTensor carrier holding its current values (same values, a Parameter object of its own); `prefix()` then runs
+    whatever history the caller wants on those values (a forward pass, an export, ...); finally the symbolic value is written INTO the
+    carrier through the chosen channel, so that object identity and the autograd version counter behave as they do for the user:
+        how = 'data'    carrier.data.copy_(sym)      (checkpoint loaders, some optimizers: the version counter does not move)
+        how = 'nograd'  with torch.no_grad(): carrier.copy_(sym)     (torch.optim: the version counter moves)
+    A plain swap (`swapped_params`) would present a fresh object with a fresh counter and hide state cached per object/version."""
+
+    def __init__(self, pairs, prefix=None, how='data'):
+        self.pairs, self.prefix, self.how = pairs, prefix, how
+        self.saved = []
+
+    def __enter__(self):
+        carriers = []
+        for mod, name, sym in self.pairs:
+            d = mod._parameters if name in mod._parameters else mod._buffers
+            old = d[name]
+            self.saved.append((d, name, old))
+            c = SymTensor.of(old.detach())
+            if d is mod._parameters:
+                c = torch.nn.Parameter(c, requires_grad=old.requires_grad)
+            d[name] = c
+            carriers.append((c, sym))
+        if self.prefix is not None:
+            self.prefix()
+        for c, sym in carriers:
+            if self.how == 'data':
+                c.data.copy_(sym)
+            else:
+                with torch.no_grad():
+                    c.copy_(sym)
+        return self
+
+    def __exit__(self, *a):
+        for d, name, old in self.saved:
+            d[name] = old
+        return False
+
+
 def eq_terms(a, b):
     """z3 formula: element-wise equality of two tensor-likes (shapes must agree) - list of per-element equalities"""
     A, B = to_arr(a), to_arr(b)
